@@ -297,13 +297,18 @@ def make_tc(name):
         def checked(*args, **kwargs):
             hit("tc.call")
             try:
-                return inner(*args, **kwargs)
+                out = inner(*args, **kwargs)
             except BaseException as e:
                 st = state()
                 if st is not None and st.tc_observer is not None:
                     with quiet():
                         st.tc_observer(fn, e, args, kwargs)
                 raise
+            st = state()
+            if st is not None and st.tc_observer is not None:
+                with quiet():
+                    st.tc_observer(fn, None, args, kwargs)
+            return out
 
         return checked
 
